@@ -153,6 +153,16 @@ claim("C20", "exploration",
       "over windows of the small sets, sampled otherwise.",
       TB + " Arithmetic injectors are driven with floating columns only.", "DESIGN.md 4 (C20)")
 
+claim("C01", "exploration",
+      "runtime monitoring: icontract postconditions on every update (state domain, counter monotonicity) + harness-side "
+      "lifecycle automaton per detector (counters, restart table, warm-up, retraining_recs) over many-epoch histories",
+      "All 15 detectors x hostile and moderate parameter draws x generated histories with many drifts (also back to back and "
+      "inside warm-up; MD3 through its protocol): after every accepted update icontract postconditions check the state domain "
+      "and 0 <= since-reset <= total, and an automaton that knows only the inputs and the property's restart table checks the "
+      "exact counter values, that no warning/drift appears before the documented minimum of the epoch, and that "
+      "retraining_recs on drift is [start <= end == current index] and is not carried into the next epoch.  Sampled.",
+      TB + " The harness never calls reset().", "DESIGN.md 4 (C01)")
+
 NOT_YET = "check not built yet in this revision of /verif (planned: see DESIGN.md section 4); nothing is claimed for it"
 
 
